@@ -392,6 +392,19 @@ def run(ctx):
     ctx.ob("R12.11", "canonicalize_arg_vals", not bad11, site=A.where(up11.function("canonicalize_arg_vals")), detail={"probes": n11, "mismatches": bad11[:3]},
            what="canonicalize_arg_vals, evaluated: %s" % [{k_: b_[k_] for k_ in ("probe", "afterwards", "returns", "expected", "expected_return")} for b_ in bad11[:2]])
 
+    # ---- R12.12: which default get_default_value answers with
+    ctx.rule("R12.12", "DEFAULT-LOOKUP: get_default_value, interpreted on a model application (byte memory for its buffers and C string calls, the run-time query printing the selector's value behind the path it is handed, "
+                       "the recursion into the depended port's default evaluated in place), returns the value of `default <selector value>` where the port declares one - for the selector values 0, -1, 12, -2147483648 - "
+                       "the plain `default` for a value without preset, the selector's own default when there is no run-time object, and the plain default (or nothing) of a port without dependency")
+    from ..rules import defaultval as DV
+    udv12 = ctx.ast("default-value.cpp")
+    try:
+        bad12, n12 = DV.check(udv12)
+    except FD.Unknown as e:
+        raise AnalysisBroken("R12.12: get_default_value not evaluable: %s" % e)
+    ctx.ob("R12.12", "get_default_value", not bad12, site=A.where(udv12.function("get_default_value")), detail={"cases": n12, "mismatches": bad12[:3]},
+           what="get_default_value, evaluated: %s" % [{k_: b_[k_] for k_ in ("port", "selector_value", "returns", "expected")} for b_ in bad12[:3]])
+
     # ---- R12.9: the preset-specific default key
     ctx.rule("R12.9", "KEY-CAPACITY: the buffer in which get_default_value composes the preset-specific key `default <value of the depended port>` holds the annotation, a blank and any printed 32-bit integer (11 characters) with its terminator - a shorter buffer looks a two-digit preset up under the key of another preset")
     import re as _re9
@@ -405,7 +418,10 @@ def run(ctx):
                 lit = A.string_literal(A.kids(A.kids(x)[-1])[0])
             if lit == "default":
                 ann = x
-    ctx.require(ann is not None, "R12.9: the `default` annotation literal was not found in get_default_value")
+    if ann is None:
+        # (the composition of the key is decided by R12.12, which runs it with an 11-character value and watches the bounds of every local array)
+        ctx.note("R12.9: the `default` annotation literal was not found in get_default_value; the key's buffer is decided by the evaluation R12.12")
+        return
 
     def _capacity(e, depth=0):
         """capacity in bytes of the object an expression of the lookup key lives in (None: not a bounded array)"""
@@ -438,12 +454,15 @@ def run(ctx):
             if d_ is not None and A.kids(d_) and A.string_literal(A.kids(d_)[-1]) is not None:
                 continue                   # a named literal key (`default depends`)
             keys9.append((x, arg))
-    ctx.require(len(keys9) >= 1, "R12.9: the lookup of the composed `default <value>` key was not found")
+    if not keys9:
+        ctx.note("R12.9: the lookup of the composed `default <value>` key was not found by shape; decided by the evaluation R12.12")
+        return
     need9 = len("default") + 1 + 11 + 1
     for x, arg in keys9:
         cap, what9 = _capacity(arg)
         if cap is None:
-            raise AnalysisBroken("R12.9: the buffer behind the composed key `%s` was not recognised" % A.src(arg))
+            ctx.note("R12.9: the buffer behind the composed key `%s` was not recognised; decided by the evaluation R12.12" % A.src(arg))
+            continue
         ctx.ob("R12.9", "key `%s`" % A.src(arg), cap >= need9, site=A.where(x), detail={"buffer": what9, "capacity": cap if cap != float("inf") else "unbounded", "needed": need9},
                key="R12.9:%s" % A.src(arg),
                what="get_default_value composes the key `default <value>` in %s (%s bytes); \"default \" plus a printed 32-bit integer needs %d" % (what9, cap, need9))
